@@ -203,9 +203,10 @@ func c11Run(c c11Case) string {
 // singleQuoted respells every string literal of a JSON text with single
 // quotes, when no string contains a single quote or an escaped double quote.
 func singleQuoted(text string) (string, bool) {
-	if strings.Contains(text, "'") || strings.Contains(text, `\"`) {
+	if strings.Contains(text, "'") {
 		return "", false
 	}
+	// an escaped double quote stays what it is: \" is an escape in either style
 	var sb strings.Builder
 	in := false
 	for i := 0; i < len(text); i++ {
